@@ -40,6 +40,7 @@ type Engine struct {
 
 	mu           sync.Mutex
 	assumptions  map[string]bool
+	globalInit   map[*ssa.Global]bool
 	contractUses map[string]map[string]bool
 
 	overflowChecks bool
@@ -679,4 +680,64 @@ func (e *Engine) namedType(full string) types.Type {
 		return nil
 	}
 	return o.Type()
+}
+
+// initOnlyNonNil: the package-level pointer variable is written exactly once,
+// by its package's initialiser, with the address of a fresh object, and its
+// own address is used for nothing but loads and that store. Reads then yield
+// a non-nil pointer, provided package initialisation has completed before any
+// function under contract runs (recorded as an assumption where used).
+func (e *Engine) initOnlyNonNil(gl *ssa.Global) bool {
+	e.mu.Lock()
+	defer e.mu.Unlock()
+	if e.globalInit == nil {
+		e.globalInit = map[*ssa.Global]bool{}
+		type info struct {
+			stores  int
+			ok      bool
+			escapes bool
+		}
+		inf := map[*ssa.Global]*info{}
+		get := func(g *ssa.Global) *info {
+			if inf[g] == nil {
+				inf[g] = &info{}
+			}
+			return inf[g]
+		}
+		for _, fn := range e.funcs {
+			for _, b := range fn.Blocks {
+				for _, in := range b.Instrs {
+					switch x := in.(type) {
+					case *ssa.UnOp:
+						continue // loads are harmless
+					case *ssa.DebugRef:
+						continue
+					case *ssa.Store:
+						if g, ok := x.Addr.(*ssa.Global); ok {
+							i := get(g)
+							i.stores++
+							_, fresh := x.Val.(*ssa.Alloc)
+							i.ok = fresh && fn.Name() == "init" && fn.Synthetic != "" && fn.Pkg == g.Pkg
+						}
+						if g, ok := x.Val.(*ssa.Global); ok {
+							get(g).escapes = true
+						}
+						continue
+					}
+					for _, op := range in.Operands(nil) {
+						if op == nil || *op == nil {
+							continue
+						}
+						if g, ok := (*op).(*ssa.Global); ok {
+							get(g).escapes = true
+						}
+					}
+				}
+			}
+		}
+		for g, i := range inf {
+			e.globalInit[g] = i.stores == 1 && i.ok && !i.escapes
+		}
+	}
+	return e.globalInit[gl]
 }
